@@ -421,9 +421,12 @@ class RedlineEngine:
         """
         Properties for a new paragraph modelled on an existing one. A tracked change of the
         original's paragraph mark (w:rPr/w:ins, w:rPr/w:del ...) is that paragraph's own revision:
-        copying it would duplicate its id.
+        copying it would duplicate its id. A section break (w:sectPr) ends a section at the
+        original paragraph: copying it would start a new section with every new paragraph.
         """
         new_pPr = deepcopy(pPr)
+        for sect in new_pPr.findall(qn("w:sectPr")):
+            new_pPr.remove(sect)
         rPr = new_pPr.find(qn("w:rPr"))
         if rPr is not None:
             for tag in ("w:ins", "w:del", "w:moveFrom", "w:moveTo"):
